@@ -4,7 +4,10 @@
 use super::*;
 include!("/verif/.cache/gen/ffi_copy.rs");
 
+#[cfg(not(verif_thorough))]
 const N: usize = 32;
+#[cfg(verif_thorough)]
+const N: usize = 1024;
 const CANARY: u8 = 0xAA;
 
 // C26: writes at most buf_cap bytes including the NUL, text before the NUL is a prefix of the response,
